@@ -555,6 +555,19 @@ class Interp:
         if r is None:
             return Top("deref-unknown")
         addr, path = r
+        return self.read_at(addr, path, st)
+
+    def write_at(self, addr, path, value, st):
+        """store through a resolved location (models of `op_assign(&mut x, y)`): element writes are logged like write_place's"""
+        if any(isinstance(p, str) and p.startswith("[") for p in path):
+            st.effect(("write-elem", self.addr_label(addr), self.path_names(st, addr, path), self.abstract(value, st)))
+            return
+        base = st.heap.get(addr, Top("uninit"))
+        st.heap[addr] = self.set_at(base, path, value)
+        if self.is_tracked(addr):
+            st.effect(("write", self.addr_label(addr), self.path_names(st, addr, path), self.abstract(value, st)))
+
+    def read_at(self, addr, path, st):
         base = st.heap.get(addr)
         if base is None:
             return Top("uninit:%s" % (addr,))
@@ -564,6 +577,12 @@ class Interp:
                 cont = self.get_at(base, path[:ix[0]])
             except Infeasible:
                 cont = None
+            m = re.match(r"\[(\d+)\]$", path[ix[0]])
+            if isinstance(cont, Adt) and cont.name == "array" and m and int(m.group(1)) < len(cont.fields):
+                try:
+                    return self.get_at(cont.fields[int(m.group(1))], path[ix[0] + 1:])     # element of an array literal
+                except Infeasible:
+                    pass
             lab = cont.label if isinstance(cont, Top) else (addr if isinstance(addr, str) else "elem")
             return Top("%s%s" % (lab, path[ix[0]]) if path[ix[0]] != "[]" else "elem")
         return self.get_at(base, path)
@@ -787,7 +806,7 @@ class Interp:
                 if isinstance(a, Adt) and a.name == "!":
                     return a.fields[0]
                 return Top("not")
-            if rv["op"] == "PtrMetadata" and isinstance(a, Ref):
+            if rv["op"] == "PtrMetadata" and (isinstance(a, Ref) or (isinstance(a, Top) and a.label not in ("unop", "cast", "arith"))):
                 # the length of the slice behind a reference: same node as a logged `slice::len(&s)` call
                 return Adt("fn:slice::len", 0, (a,))
             return Top("unop")
@@ -1318,6 +1337,12 @@ class Interp:
             if not memo:
                 st2.unbind_label(lab)
             ret = self.symbolic(getattr(self, "_ret_ty", None), lab)
+            rty = getattr(self, "_ret_ty", None)
+            rec = getattr(rty, "rec", None)
+            if isinstance(rec, dict) and rec.get("k") == "ref" and rty.pointee() is not None:
+                rec = rty.pointee().rec
+            if log and self.log_asserts and isinstance(rec, dict) and rec.get("k") == "array" and rec.get("len") is not None:
+                st2.effect(("array-len", lab, int(rec["len"])))       # an array(-reference) result: its length is in its type
             if isinstance(ret, Sym):
                 ret = self.fresh_sym(st2, ret.name)
             elif ty_s(ret.ty) == "()":
